@@ -25,6 +25,20 @@ def scenario(cls, kw):
                 out.append('EXC:' + type(ex).__name__ + ':' + str(ex)[:160])
         except Exception as ex:
             out.append('CTOR:' + type(ex).__name__ + ':' + str(ex)[:160])
+    # a misspelt dot name (the error message lists the allowed attributes: a consumer of the shared table), then the element is used normally
+    try:
+        e = c(**dict(kw)) if not job.get('values', {}).get(cls) else c(job['values'][cls], **dict(kw))
+        try:
+            e.no_such_attribute_ = 1
+            out.append('DOT:ok')
+        except Exception as ex:
+            out.append('DOT:' + type(ex).__name__ + ':' + str(ex)[:200])
+        try:
+            out.append(e.to_string())
+        except Exception as ex:
+            out.append('EXC:' + type(ex).__name__ + ':' + str(ex)[:160])
+    except Exception as ex:
+        out.append('CTOR:' + type(ex).__name__ + ':' + str(ex)[:160])
     return out
 
 
